@@ -647,6 +647,23 @@ impl<'a> UserModel<'a> {
     pub fn delete_sheet(&mut self, sheet: u32) -> Result<(), String> {
         let old_data = Box::new(self.model.workbook.worksheet(sheet)?.clone());
         let sheet_count = self.model.workbook.worksheets.len() as u32;
+        // The defined names local to the sheet are deleted with it. They are
+        // recorded as deletions *before* the deletion of the sheet, so that undo
+        // (which runs the list backwards) re-creates them after the sheet is back
+        // and redo deletes them while the sheet still exists.
+        let sheet_id = old_data.sheet_id;
+        let mut diff_list: Vec<Diff> = self
+            .model
+            .workbook
+            .defined_names
+            .iter()
+            .filter(|dn| dn.sheet_id == Some(sheet_id))
+            .map(|dn| Diff::DeleteDefinedName {
+                name: dn.name.clone(),
+                scope: Some(sheet),
+                old_value: dn.formula.clone(),
+            })
+            .collect();
         // This fails if it is the only sheet: nothing must be recorded in that case
         self.model.delete_sheet(sheet)?;
 
@@ -657,7 +674,8 @@ impl<'a> UserModel<'a> {
             };
         }
 
-        self.push_diff_list(vec![Diff::DeleteSheet { sheet, old_data }]);
+        diff_list.push(Diff::DeleteSheet { sheet, old_data });
+        self.push_diff_list(diff_list);
         Ok(())
     }
 
